@@ -678,7 +678,8 @@ def read_imp_stmt(line: str) -> tuple[Literal["import"], Import] | None:
     # import, only: a, b, c
     # import :: a, b, c
     # import a, b, c
-    trailing_line = line[import_match.end(0) - 1 :].lower()
+    # A trailing comment is not part of the name list
+    trailing_line = line[import_match.end(0) - 1 :].split("!")[0].lower()
     import_list = {import_obj.strip() for import_obj in trailing_line.split(",")}
     return "import", Import("#import", ImportTypes.ONLY, import_list)
 
